@@ -57,6 +57,12 @@ def gridAxisBlocks (start sampling : Rat) (cs : List Nat) : List AxisBlock :=
     let st := gsStart start sampling (s : Rat)
     ⟨st, gsEnd st sampling (c : Rat), c⟩
 
+/-- `CustomScan.ensemble_shape`: a scan without positions is the "no scan" sentinel with shape `()` -/
+def customScanShape {α} (positions : List α) : List Nat := if positions.isEmpty then [] else [positions.length]
+
+/-- `AtomsEnsemble.atoms` reads the first configuration of the trajectory (IndexError on an empty one) -/
+def firstConfig {α} (trajectory : List α) : Option α := trajectory.head?
+
 /-- positions described by a block: `np.linspace(start, end, gpts, endpoint=False)` -/
 def AxisBlock.positions (b : AxisBlock) : List Rat := linspace b.start b.stop b.gpts false
 
